@@ -49,8 +49,8 @@ def ensure_generated(force=False):
         env.pop("PYTHONPATH", None)
         if REPO != "/repo":
             env["PYTHONPATH"] = REPO + "/src"
-        subprocess.run(["make", "-s", "-C", EBD, "clean"], check=True, env=env,
+        subprocess.run(["make", "-s", "-C", EBD, "clean"], check=True, env=env, stderr=subprocess.DEVNULL,
                        stdout=subprocess.DEVNULL)
         subprocess.run(["make", "-s", "-j8", "-C", EBD, "all", "PYTHON=/venv/bin/python"] + (["PYTHONPATH=" + REPO + "/src"] if REPO != "/repo" else []), check=True, env=env,
-                       stdout=subprocess.DEVNULL)
+                       stdout=subprocess.DEVNULL, stderr=subprocess.DEVNULL)
         return True
